@@ -887,6 +887,26 @@ RULES = {
         ("low . borrow ( )", "low"),
         ("high . borrow ( )", "high"),
     ]),
+    "R53": MultiRule("R53", "serde bodies (feature serde) over the local model of serde's data model (prelude/serdemodel.rs): calls of serde's own Serialize / Deserialize impls for [u32], i8 and tuples and of Deserializer::deserialize_seq -> named helpers carrying the modelled semantics; `next_element::<u32>()` -> the monomorphic method; `while let Some(x) = E? { B }` -> `loop { let x = match E? { Some(v) => v, None => break }; B }` (definition of while-let); reference pattern in `if let`; `(c) as usize` of a bool -> helper; `mem::size_of::<u32>()` -> 4", [
+        ("use serde :: ser :: SerializeSeq ;", ""),
+        ("use crate :: big_digit :: BigDigit ;", ""),
+        ("use num_integer :: Integer ;", ""),
+        ("if let Some ( ( & last , data ) ) = self . data . split_last ( ) {", "if let Some ( ( last_r__ , data ) ) = self . data . split_last ( ) { let last = * last_r__ ;"),
+        ("( last_hi != 0 ) as usize", "__bool_usize ( last_hi != 0 )"),
+        ("let data : & [ u32 ] = & [ ] ; data . serialize ( serializer )", "__serialize_u32_empty ( serializer )"),
+        ("( - 1i8 ) . serialize ( serializer )", "__serialize_i8 ( - 1i8 , serializer )"),
+        ("0i8 . serialize ( serializer )", "__serialize_i8 ( 0i8 , serializer )"),
+        ("1i8 . serialize ( serializer )", "__serialize_i8 ( 1i8 , serializer )"),
+        ("i8 :: deserialize ( deserializer ) ?", "__deserialize_i8 ( deserializer ) ?"),
+        ("Err ( D :: Error :: invalid_value ( Unexpected :: Signed ( sign . into ( ) ) , & $m , ) )", "Err ( __invalid_sign ( sign ) )"),
+        ("( self . sign , & self . data ) . serialize ( serializer )", "__serialize_pair ( self . sign , & self . data , serializer )"),
+        ("Deserialize :: deserialize ( deserializer ) ?", "__deserialize_pair ( deserializer ) ?"),
+        ("deserializer . deserialize_seq ( U32Visitor )", "__deserialize_seq_u32visitor ( deserializer )"),
+        ("Integer :: div_ceil ( & u32_len , & 2 )", "__usize_div_ceil ( u32_len , 2 )"),
+        ("seq . next_element :: < u32 > ( )", "seq . next_element_u32 ( )"),
+        ("while let Some ( lo ) = $$e ? { $$body }", "loop { let lo = match $$e ? { Some ( v__ ) => v__ , None => break , } ; $$body }"),
+        ("mem :: size_of :: < u32 > ( )", "4usize"),
+    ]),
     "R14n": Rule("R14n", "debug_assert_ne!(..); -> (dropped)", "debug_assert_ne ! ( $$c ) ;", ""),
     "R10n": Rule("R10n", "for _ in A..E { BODY } -> { let mut i__ = A; let e__ = E; while i__ < e__ { i__ += 1; BODY } }  (std: Range yields A, .., E-1; bounds evaluated once)",
                  "for _ in $$a .. $$e { $$body }", "{ let mut i__ = $$a ; let e__ = $$e ; while i__ < e__ { i__ += 1 ; $$body } }",
